@@ -60,4 +60,24 @@ Section I.
   (* the convergence measure of the code, between two consecutive sweeps *)
   Definition l1diff (a b : vec) : t := vsum (map2 (fun x y => oabs O (osub O x y)) a b).
   Definition l2norm (a : vec) : t := osqrt O (vsumsq a).
+
+  (* The loop as the code runs it:  for it in range(max_iter): sweep; normsum = |lambda| + |lambda_old|;
+     if normsum == 0: break; conv = |lambda_old - lambda|_1 / normsum; if conv < tol: break; lambda_old = lambda.
+     Returns the final state and n_iter_ (the index of the last sweep run).  [budget] = sweeps still allowed,
+     [it] = index of the next sweep. *)
+  Definition lams (s : st) : vec := map lam (duals s).
+  Definition stops (tol : t) (lamold lamnew : vec) : bool :=
+    let normsum := oadd O (l2norm lamnew) (l2norm lamold) in
+    if oeqb O normsum (o0 O) then true
+    else oltb O (odiv O (l1diff lamold lamnew) normsum) tol.
+  Fixpoint run_conv (g : option t) (cs : list cstr) (tol : t) (budget it : nat) (s : st) (lamold : vec) : st * nat :=
+    match budget with
+    | 0%nat => (s, pred it)
+    | S b =>
+        let s1 := sweep g cs s in
+        if stops tol lamold (lams s1) then (s1, it)
+        else run_conv g cs tol b (S it) s1 (lams s1)
+    end.
+  Definition fit_loop (g : option t) (cs : list cstr) (tol : t) (max_iter : nat) (A0 : mat) (lo hi : t) : st * nat :=
+    let s0 := init A0 cs lo hi in run_conv g cs tol max_iter 0 s0 (lams s0).
 End I.
